@@ -214,7 +214,8 @@ Record params := mkParams {
   nbytes : bool;              (* chunk sizes are byte lengths *)
   pool_keeps_pos : bool;      (* the pool hands body_pos on to the retry / redirect it makes itself *)
   see_other_clears_pos : bool;   (* the pool's 303 branch forgets body_pos together with the body *)
-  manager_keeps_pos : bool    (* PoolManager.urlopen hands the recorded position on when it follows a redirect *)
+  manager_keeps_pos : bool;   (* PoolManager.urlopen hands the recorded position on when it follows a redirect *)
+  see_other_unchunks : bool   (* after a 303 the chunked flag is dropped with the body *)
 }.
 
 Definition GET : str := str_of_string "GET".
@@ -239,7 +240,7 @@ Fixpoint urlopen (P : params) (via_manager : bool) (hist : list outcome) (method
                 | ARedirect true =>
                     urlopen P via_manager rest GET BNone
                             (if via_manager then PNone else if see_other_clears_pos P then PNone else if pool_keeps_pos P then p1 else PNone)
-                            flag blocksize
+                            (if see_other_unchunks P then false else flag) blocksize
                 | ARedirect false =>
                     urlopen P via_manager rest method b2
                             (if via_manager then (if manager_keeps_pos P then p1 else PNone) else if pool_keeps_pos P then p1 else PNone)
